@@ -1245,8 +1245,8 @@ func (g *gen) inject() {
 			qf(fmt.Sprintf("bcItem%d", i), &Ref{Name: n})
 		}
 		for i, n := range []string{"Bc_Kind", "BcKind", "bc_kind"} {
-			e := add(&Def{Kind: "enum", Name: n, Values: []*EnumVal{{Name: "LO"}, {Name: "HI"}}})
-			g.enums = append(g.enums, e)
+			// (not registered in g.enums: these stay plain generated enums, never bound to Go types)
+			add(&Def{Kind: "enum", Name: n, Values: []*EnumVal{{Name: "LO"}, {Name: "HI"}}})
 			qf(fmt.Sprintf("bcKind%d", i), &Ref{Name: n}, &Arg{Name: "k", T: &Ref{Name: n}})
 		}
 		g.feat("benign_type_name_collisions")
